@@ -95,6 +95,8 @@ type progOpts struct {
 	jsSafe     bool // stay inside the subset both backends define (C04)
 	taint      bool
 	directives bool
+	spread     bool // C19: put (most) commands on lines of their own, so that line numbers discriminate
+	allHeader  bool // C19: every template declares its params in the header (no soydoc comment in the file)
 }
 
 type progGen struct {
@@ -108,6 +110,18 @@ type progGen struct {
 }
 
 func (g *progGen) feat(s string) { g.feats[s]++ }
+
+// nl is a line break between commands when the spread option is on (a text run of white space
+// containing a newline is dropped by the scanner, so the program is the same program).
+func (g *progGen) nl() string {
+	if !g.o.spread {
+		return ""
+	}
+	if g.r.Chance(85) {
+		return "\n"
+	}
+	return ""
+}
 func (g *progGen) pk(ks ...kind) kind { return ks[g.r.Intn(len(ks))] }
 
 func (g *progGen) fresh(prefix string) string {
@@ -445,28 +459,28 @@ func (g *progGen) block(env genv, d int, n int) string {
 			}
 		case c < 11 && d > 0:
 			g.feat("if")
-			sb.WriteString("{if " + g.expr(env, kBool, d-1) + "}" + g.block(env, d-1, 1+g.r.Intn(2)))
+			sb.WriteString("{if " + g.expr(env, kBool, d-1) + "}" + g.nl() + g.block(env, d-1, 1+g.r.Intn(2)))
 			for g.r.Chance(30) {
 				g.feat("elseif")
-				sb.WriteString("{elseif " + g.expr(env, kBool, d-1) + "}" + g.block(env, d-1, 1))
+				sb.WriteString("{elseif " + g.expr(env, kBool, d-1) + "}" + g.nl() + g.block(env, d-1, 1))
 			}
 			if g.r.Bool() {
-				sb.WriteString("{else}" + g.block(env, d-1, 1))
+				sb.WriteString("{else}" + g.nl() + g.block(env, d-1, 1))
 			}
 			sb.WriteString("{/if}")
 		case c < 12 && d > 0:
 			g.feat("switch")
 			k := g.pk(kInt, kStr)
-			sb.WriteString("{switch " + g.expr(env, k, d-1) + "}")
+			sb.WriteString("{switch " + g.expr(env, k, d-1) + "}" + g.nl())
 			for j := 0; j < 1+g.r.Intn(3); j++ {
 				sb.WriteString("{case " + g.expr(env, k, 0))
 				if g.r.Chance(30) {
 					sb.WriteString(", " + g.expr(env, k, 0))
 				}
-				sb.WriteString("}" + g.block(env, d-1, 1))
+				sb.WriteString("}" + g.nl() + g.block(env, d-1, 1))
 			}
 			if g.r.Bool() {
-				sb.WriteString("{default}" + g.block(env, d-1, 1))
+				sb.WriteString("{default}" + g.nl() + g.block(env, d-1, 1))
 			}
 			sb.WriteString("{/switch}")
 		case c < 14 && d > 0:
@@ -480,18 +494,18 @@ func (g *progGen) block(env genv, d int, n int) string {
 			if g.r.Chance(20) {
 				v.name = g.r.Pick([]string{"i", "x", "a"}) // shadowing
 			}
-			sb.WriteString("{foreach $" + v.name + " in " + g.expr(env, k, d-1) + "}")
+			sb.WriteString("{foreach $" + v.name + " in " + g.expr(env, k, d-1) + "}" + g.nl())
 			sb.WriteString(g.block(env.withLoop(v), d-1, 1+g.r.Intn(2)))
 			if k == kEList || g.r.Chance(20) {
 				g.feat("ifempty")
-				sb.WriteString("{ifempty}" + g.block(env, d-1, 1))
+				sb.WriteString("{ifempty}" + g.nl() + g.block(env, d-1, 1))
 			}
 			sb.WriteString("{/foreach}")
 		case c < 15 && d > 0:
 			g.feat("for-range")
 			v := gvar{name: "r" + g.fresh(""), k: kInt}
 			args := g.r.Pick([]string{"3", "1, 4", "0, 6, 2", "0"})
-			sb.WriteString("{for $" + v.name + " in range(" + args + ")}" + g.block(env.withLoop(v), d-1, 1) + "{/for}")
+			sb.WriteString("{for $" + v.name + " in range(" + args + ")}" + g.nl() + g.block(env.withLoop(v), d-1, 1) + "{/for}")
 		case c < 17:
 			g.feat("let")
 			k := g.printable()[g.r.Intn(6)]
@@ -516,7 +530,7 @@ func (g *progGen) block(env genv, d int, n int) string {
 			g.feat("let-content")
 			used := false
 			v := gvar{name: "c" + g.fresh(""), k: kStr, used: &used}
-			sb.WriteString("{let $" + v.name + "}" + g.block(env, d-1, 1+g.r.Intn(2)) + "{/let}")
+			sb.WriteString("{let $" + v.name + "}" + g.nl() + g.block(env, d-1, 1+g.r.Intn(2)) + "{/let}")
 			env = env.with(v)
 			pendingLets = append(pendingLets, v)
 		case c < 20 && d > 0:
@@ -535,10 +549,11 @@ func (g *progGen) block(env genv, d int, n int) string {
 			sb.WriteString(g.msg(env, d))
 		case c < 24 && !g.o.noLog && d > 0:
 			g.feat("log")
-			sb.WriteString("{log}" + g.block(env, d-1, 1) + "{/log}")
+			sb.WriteString("{log}" + g.nl() + g.block(env, d-1, 1) + "{/log}")
 		default:
 			sb.WriteString(g.r.Pick(rawTexts))
 		}
+		sb.WriteString(g.nl())
 	}
 	for _, v := range pendingLets {
 		if !*v.used {
@@ -683,15 +698,15 @@ func (g *progGen) call(env genv, d int) string {
 		}
 		if k == kStr && g.r.Chance(40) && d > 0 {
 			g.feat("param-content")
-			params = append(params, "{param "+p.name+"}"+g.block(env, d-1, 1)+"{/param}")
+			params = append(params, "{param "+p.name+"}"+g.nl()+g.block(env, d-1, 1)+"{/param}"+g.nl())
 		} else {
-			params = append(params, "{param "+p.name+": "+g.expr(env, k, d-1)+" /}")
+			params = append(params, "{param "+p.name+": "+g.expr(env, k, d-1)+" /}"+g.nl())
 		}
 	}
 	if len(params) == 0 {
 		sb.WriteString(" /}")
 	} else {
-		sb.WriteString("}" + strings.Join(params, "") + "{/call}")
+		sb.WriteString("}" + g.nl() + strings.Join(params, "") + "{/call}")
 	}
 	return sb.String()
 }
@@ -722,6 +737,9 @@ func genBundle(r *hx.Rand, o progOpts) (files []srcFile, entry string, dataSets 
 		{"f", kFloat, false}, {"rec", kRec, false}, {"opt", kOptInt, true}, {"names", kListStr, false}, {"el", kEList, false}, {"i", kInt, false}}
 	for i := 0; i < nT; i++ {
 		t := &gtemplate{short: fmt.Sprintf("t%d", i), header: r.Chance(30)}
+		if o.allHeader {
+			t.header = true
+		}
 		t.ns = nss[r.Intn(len(nss))]
 		if i == 0 {
 			t.ns = nss[0]
